@@ -10,23 +10,63 @@ mod verif_xml_escape {
     use super::*;
     use crate::verif_support::{assume, reach};
 
-    /// fixed-size sink (6 input octets * 6 octets for the longest entity = 36); it never fails:
-    /// running out of room is recorded in `overflow` (asserted false by the harness)
-    pub struct Sink { pub buf: [u8; 40], pub len: usize, pub overflow: bool }
-    impl io::Write for Sink {
-        fn write(&mut self, d: &[u8]) -> io::Result<usize> {
-            if d.len() > self.buf.len() - self.len {
-                self.overflow = true;
+    /// Independent streaming un-escaper used as the `io::Write` target: every octet written is
+    /// decoded left to right (the five predefined entities of XML 1.0 section 4.6; a `&` that does not
+    /// start one of them, or any other character that must be escaped in this context, appearing raw is
+    /// an error) and the decoded characters are compared with the expected text `inp[..n]`.
+    /// No output array with symbolic positions is kept (that made CBMC run out of memory).
+    pub struct Unesc {
+        pub attr: bool, pub inp: [u8; 6], pub n: usize,
+        /// number of characters decoded so far (all equal to inp[..i])
+        pub i: usize,
+        /// octets since an unfinished `&` (big-endian packed) and their number (0 = not inside an entity)
+        pub acc: u64, pub pl: usize,
+        /// a raw special character, an unknown entity, or a character different from the input was seen
+        pub bad: bool,
+        /// number of octets written
+        pub total: usize,
+    }
+    const fn pack(s: &[u8]) -> u64 {
+        let mut a = 0u64; let mut k = 0;
+        while k < s.len() { a = (a << 8) | s[k] as u64; k += 1; }
+        a
+    }
+    const LT: u64 = pack(b"&lt;"); const GT: u64 = pack(b"&gt;"); const AMP: u64 = pack(b"&amp;");
+    const QUOT: u64 = pack(b"&quot;"); const APOS: u64 = pack(b"&apos;");
+    impl Unesc {
+        fn emit(&mut self, c: u8) {
+            if self.i < self.n && self.inp[self.i] == c { self.i += 1 } else { self.bad = true }
+        }
+        fn octet(&mut self, c: u8) {
+            self.total += 1;
+            if self.pl == 0 {
+                if c == b'&' { self.acc = c as u64; self.pl = 1; }
+                else if must_escape(self.attr, c) { self.bad = true }
+                else { self.emit(c) }
             } else {
-                // every write of write_escaped is a piece of the input or one entity: at most 6 octets
-                // (a constant-bound copy is much cheaper for CBMC than a memcpy of symbolic length)
-                if d.len() > 6 { self.overflow = true; }
-                let mut j = 0;
-                while j < 6 {
-                    if j < d.len() { self.buf[self.len + j] = d[j]; }
-                    j += 1;
-                }
-                self.len += d.len();
+                self.acc = (self.acc << 8) | c as u64;
+                self.pl += 1;
+                if c == b';' {
+                    if self.acc == LT { self.emit(b'<') }
+                    else if self.acc == GT { self.emit(b'>') }
+                    else if self.acc == AMP { self.emit(b'&') }
+                    else if self.acc == QUOT { self.emit(b'"') }
+                    else if self.acc == APOS { self.emit(b'\'') }
+                    else { self.bad = true }
+                    self.pl = 0;
+                } else if self.pl >= 6 { self.bad = true; self.pl = 0; }
+            }
+        }
+    }
+    impl io::Write for Unesc {
+        fn write(&mut self, d: &[u8]) -> io::Result<usize> {
+            // every write of write_escaped is a piece of the input or one entity: at most 6 octets
+            // (constant-bound loop; a longer write is flagged)
+            if d.len() > 6 { self.bad = true }
+            let mut j = 0;
+            while j < 6 {
+                if j < d.len() { self.octet(d[j]) }
+                j += 1;
             }
             Ok(d.len())
         }
@@ -64,66 +104,16 @@ mod verif_xml_escape {
     }}
 
     //@harness xml_escape_kb_n6 Kb fn=TextEscape::write_escaped bound="texts of at most 6 octets, every octet value, both modes"
-    verif_harness!{ #[kani::unwind(9)] xml_escape_kb_n6; |attr: bool, b: [u8; 6], len: usize| {
+    verif_harness!{ #[kani::unwind(8)] xml_escape_kb_n6; |attr: bool, b: [u8; 6], len: usize| {
         assume(len <= 6);
         let mode = if attr { TextEscape::Attr } else { TextEscape::Pcdata };
-        let mut sink = Sink { buf: [0u8; 40], len: 0, overflow: false };
+        let mut sink = Unesc { attr, inp: b, n: len, i: 0, acc: 0, pl: 0, bad: false, total: 0 };
         let r = mode.write_escaped(&b[..len], &mut sink);
         assert!(r.is_ok(), "writing to a sink that never fails succeeds");
-        assert!(!sink.overflow, "the output fits into 40 octets");
-        let n = sink.len;
-        assert!(n <= 36, "at most 6 octets per input octet");
-        // un-escape the output left to right (one decoded character per step; a `&` that does not
-        // start one of the five entities counts as a raw `&`) and compare with the input
-        let mut k = 0;
-        let mut p = 0;
-        let mut i = 0;
-        while i < 6 {
-            if i < len {
-                assert!(p < n, "output covers every input octet");
-                match entity_at(&sink.buf, p, n) {
-                    Some((c, l)) => { assert!(c == b[i], "entity decodes to the input octet"); p += l; }
-                    None => {
-                        assert!(!must_escape(attr, sink.buf[p]), "no raw special character in the output");
-                        assert!(sink.buf[p] == b[i], "plain octet copied");
-                        p += 1;
-                    }
-                }
-            }
-            i += 1;
-        }
-        assert!(p == n, "nothing after the last input octet");
-    }}
-    //@harness xml_escape_kb_n3 Kb fn=TextEscape::write_escaped timeout=300 bound="texts of at most 3 octets, every octet value, both modes"
-    verif_harness!{ #[kani::unwind(8)] xml_escape_kb_n3; |attr: bool, b: [u8; 6], len: usize| {
-        assume(len <= 3);
-        let mode = if attr { TextEscape::Attr } else { TextEscape::Pcdata };
-        let mut sink = Sink { buf: [0u8; 40], len: 0, overflow: false };
-        let r = mode.write_escaped(&b[..len], &mut sink);
-        assert!(r.is_ok(), "writing to a sink that never fails succeeds");
-        assert!(!sink.overflow, "the output fits into 40 octets");
-        let n = sink.len;
-        assert!(n <= 36, "at most 6 octets per input octet");
-        // un-escape the output left to right (one decoded character per step; a `&` that does not
-        // start one of the five entities counts as a raw `&`) and compare with the input
-        let mut k = 0;
-        let mut p = 0;
-        let mut i = 0;
-        while i < 3 {
-            if i < len {
-                assert!(p < n, "output covers every input octet");
-                match entity_at(&sink.buf, p, n) {
-                    Some((c, l)) => { assert!(c == b[i], "entity decodes to the input octet"); p += l; }
-                    None => {
-                        assert!(!must_escape(attr, sink.buf[p]), "no raw special character in the output");
-                        assert!(sink.buf[p] == b[i], "plain octet copied");
-                        p += 1;
-                    }
-                }
-            }
-            i += 1;
-        }
-        assert!(p == n, "nothing after the last input octet");
+        assert!(!sink.bad, "no raw special character, only the five entities, decoded characters equal the input");
+        assert!(sink.pl == 0, "no unfinished entity at the end");
+        assert!(sink.i == len, "un-escaping gives the whole input back");
+        assert!(sink.total <= 36, "at most 6 octets per input octet");
     }}
 }
 //@end
